@@ -3,6 +3,7 @@ import CssVerif.Lemmas.OutSheetLayout
 import CssVerif.Lemmas.OutSep
 import CssVerif.Lemmas.OutEffect
 import CssVerif.Lemmas.OutSolid
+import CssVerif.Lemmas.OutFixes
 /-!
 # C06 — serializer preferences do exactly what they document, in every combination
 
@@ -101,12 +102,39 @@ example (p : Prefs) (hs : allWs p.spacer = true) :
       = [97] ++ gapOf p ++ [98, 92, 32] :=
   (words_are_separated p hs 1 t_IDENT [97] [98, 92, 32] (by decide) (by decide) (by decide)).1
 
-/-- … and for any number of words, on the list `Out.out` itself (no hypothesis on the record at all) -/
+/-- … and for any number of words, on the list `Out.out` itself. Since d39f9c4 `Out.append` looks at the last piece
+of the list: a piece `/` in front of a word that starts with `*` gets a blank (see `slash_star_kept_apart`), so the
+closed form is stated for a list that does not end in the single piece `/` and a spacer that is not the string `/`
+(no other hypothesis on the record). -/
 theorem every_word_is_followed_by_the_gap (p : Prefs) (il : Nat) (ty : CssVerif.Proto.Cps) (ht : GenericTy ty = true)
-    (ws : List CssVerif.Proto.Cps) (hw : ∀ w ∈ ws, Plain w = true) (o : O) :
+    (hsp : p.spacer ≠ [47]) (ws : List CssVerif.Proto.Cps) (hw : ∀ w ∈ ws, Plain w = true) (o : O)
+    (ho : o.head? ≠ some [47]) :
     runCalls p il (ws.map fun w => ({ v := .str w, ty := ty } : Call)) o
       = (ws.reverse.flatMap fun w => gapPieces p ++ [w]) ++ o :=
-  runCalls_words p il ty ht ws o hw
+  runCalls_words p il ty ht hsp ws o hw ho
+
+/-- **(repair d39f9c4)** `/` followed by a value that starts with `*`: the APPEND phase of `Out.append` puts one blank
+between them under EVERY preference record and whatever the flags (except `indent`, which no caller combines with
+such a value), so `/` + `*…` never opens a comment. -/
+theorem slash_star_kept_apart (p : Prefs) (il : Nat) (o : O) (w : CssVerif.Proto.Cps) (f : Fl) (hi : f.indent = false) :
+    appendMid p il ([47] :: o) (42 :: w) f = (42 :: w) :: [32] :: [47] :: o :=
+  appendMid_slash_star p il o w f hi
+
+/-- **(repair d39f9c4)** `=` after one of `* ~ | ^ $` (the attribute-selector operators `*=`, `~=`, `|=`, `^=`, `$=` are
+single tokens): one blank is kept between them under EVERY preference record. -/
+theorem op_equals_kept_apart (p : Prefs) (il : Nat) (o : O) (c : Nat) (hc : isAttrOp c = true) :
+    append p il ([c] :: o) (.str [61]) t_CHAR {} = [61] :: [32] :: [c] :: o :=
+  append_op_equals p il o c hc
+
+/-- `@x a/ *b;`: the former witness of the fusion (an unknown at-rule with the CHAR `/` followed by the CHAR `*`), under
+the default record and under the minified layout strings -/
+example :
+    doRule Prefs.default 0 0 (.unknown (.mk true [64, 120]
+      [.str t_S [32], .str t_IDENT [97], .str t_CHAR [47], .str t_CHAR [42], .str t_IDENT [98], .str t_CHAR [59]]))
+      = .ok [64, 120, 32, 97, 47, 32, 42, 32, 98, 59] ∧
+    doRule { Prefs.default with spacer := [], lineSeparator := [], indent := [] } 0 0 (.unknown (.mk true [64, 120]
+      [.str t_S [32], .str t_IDENT [97], .str t_CHAR [47], .str t_CHAR [42], .str t_IDENT [98], .str t_CHAR [59]]))
+      = .ok [64, 120, 32, 97, 47, 32, 42, 32, 98, 59] := ⟨rfl, rfl⟩
 
 /-- `+`, `>`, `~` (fix 9620553): a CHAR that is not a selector combinator item keeps ONE SPACE on each side under
 every preference record (so `1 + 2` never becomes `1+2`); a combinator item gets `selectorCombinatorSpacer`. -/
@@ -297,11 +325,47 @@ theorem finding_nth_plus_fusion :
         .mk [68] (.str [50, 110]), .mk t_plus (.str [43]), .mk [78] (.str [49]), .mk [102] (.str [41])])
       = [97, 58, 110, 116, 104, 45, 99, 104, 105, 108, 100, 40, 50, 110, 43, 49, 41] := rfl
 
-/-- **finding C06-hash-in-unknown-rule**: `minimizeColorHash` shortens every item of type HASH, also inside an unknown
-at-rule where it need not be a colour: `@x #aabbcc;` is written `@x #abc;` -/
-theorem finding_hash_in_unknown_rule :
+/-- **finding C06-op-equals-fusion**: the test of d39f9c4 looks at the last piece of the list; with an EMPTY spacer the
+piece after `*` is the empty spacer (the blank behind it is removed by `=`), so `*` + `=` fuse after all: `@x [a* =b];` is
+written `@x [a *=b];` under the minified layout strings, but `@x [a * =b];` under the default record. `~` is not
+affected (its blanks come from the `+>~` branch). -/
+theorem finding_op_equals_fusion_empty_spacer :
+    doRule pTight 0 0 (.unknown (.mk true [64, 120]
+      [.str t_S [32], .str t_CHAR [91], .str t_IDENT [97], .str t_CHAR [42], .str t_S [32], .str t_CHAR [61],
+       .str t_IDENT [98], .str t_CHAR [93], .str t_CHAR [59]]))
+      = .ok [64, 120, 32, 91, 97, 32, 42, 61, 98, 93, 59] ∧
+    doRule Prefs.default 0 0 (.unknown (.mk true [64, 120]
+      [.str t_S [32], .str t_CHAR [91], .str t_IDENT [97], .str t_CHAR [42], .str t_S [32], .str t_CHAR [61],
+       .str t_IDENT [98], .str t_CHAR [93], .str t_CHAR [59]]))
+      = .ok [64, 120, 32, 91, 97, 32, 42, 32, 61, 98, 93, 59] := ⟨rfl, rfl⟩
+
+/-- **(was finding C06-hash-in-unknown-rule, repaired in f99aded)** `minimizeColorHash` does not reach an unknown
+at-rule: its text is the same whether the preference is on or off, for EVERY rule (any nesting of blocks and nested
+unknown rules) and every record — `do_CSSUnknownRule` passes a HASH item with type `None`, so `Out.append` never
+sends it through `_hash`. -/
+theorem hash_in_unknown_rule_kept_as_written (p : Prefs) (b : Bool) (lv : Nat) (u : URule) :
+    doURule (p.withHash b) lv u = doURule p lv u :=
+  doURule_withHash p b lv u
+
+/-- the former witness: `@x #aabbcc;` is written `@x #aabbcc;` -/
+example :
     doRule Prefs.default 0 0 (.unknown (.mk true [64, 120]
       [.str t_S [32], .str t_HASH [35, 97, 97, 98, 98, 99, 99], .str t_CHAR [59]]))
-      = .ok [64, 120, 32, 35, 97, 98, 99, 59] := rfl
+      = .ok [64, 120, 32, 35, 97, 97, 98, 98, 99, 99, 59] := rfl
+
+/-- **(repair ec62b69)** page selector `a/*c*/:first`: name, comment and pseudo-page are written without white space
+between them, under the default record and under the minified layout strings (before the repair: `a /*c*/ :first`,
+which reparses as a page named `a` plus a stray token) -/
+theorem page_name_comment_pseudo_unspaced :
+    value (runCalls Prefs.default 1 (pageSelCalls
+      [(t_IDENT, .str [97]), (t_COMMENT, .obj [47, 42, 99, 42, 47]), ([112], .str [58, 102])]))
+      = [97, 47, 42, 99, 42, 47, 58, 102] ∧
+    value (runCalls pTight 1 (pageSelCalls
+      [(t_IDENT, .str [97]), (t_COMMENT, .obj [47, 42, 99, 42, 47]), ([112], .str [58, 102])]))
+      = [97, 47, 42, 99, 42, 47, 58, 102] ∧
+    -- a comment BEFORE the name keeps its space (`named` is still false)
+    value (runCalls Prefs.default 1 (pageSelCalls
+      [(t_COMMENT, .obj [47, 42, 99, 42, 47]), (t_IDENT, .str [97]), ([112], .str [58, 102])]))
+      = [47, 42, 99, 42, 47, 32, 97, 58, 102] := ⟨rfl, rfl, rfl⟩
 
 end CssVerif.C06
